@@ -139,7 +139,10 @@ def c17_plan(ctx, tier):
                       "instances from 4 constructor pairs and checks Commute, Idempotent, CaseBlind, SwitchLastWrite, RulesAccumulate, Independent; "
                       "each history is replayed on the real API: snapshot of each instance = predicted policy, the untouched instance's snapshot "
                       "never changes, an instance built next to another behaves like the same calls made alone, and all histories reaching the "
-                      "same abstract policy behave identically on 13 probe documents. policyfuzz: random recipes vs permuted / upper-cased / "
+                      "same abstract policy behave identically on 13 probe documents; two direct oracles on the real API: accumulation (for every ordered pair of "
+                      "rule-adding calls c1, c2 of the family and NewPolicy/UGCPolicy, whatever ctor+c1 lets through ctor+c1+c2 lets through as well) and "
+                      "used-while-built (the same calls with the policy sanitising the probe documents between them behave like the calls made "
+                      "without uses). policyfuzz: random recipes vs permuted / upper-cased / "
                       "repeated / interleaved variants with the same rule set; interleaved constructions are trace-validated (build events with "
                       "snapshots of both instances). non-trivial = distinct abstract policies reached"),
                 exhaustive=False, assumptions=ASSUME_COMMON + ["behavioural equality is judged on 13 probe documents over the union vocabulary"])
@@ -153,7 +156,8 @@ IO_RULE = ("TLC explores BM_IO for every (recipe, document) of fam_io x every en
            "PrefixOfFaultFree, FailIsLast, AfterFailNoWrite, FailReported; every finished run is replayed with a scripted io.Reader / io.Writer "
            "around the real entry point (writes, error result, tokens consumed compared); per (policy, document) the harness additionally "
            "replays every single cut position and every pair of cut positions (short inputs), one-byte reads, zero-length reads, data+EOF, "
-           "every write index x mode x writer kind and every byte offset as reader failure; iofuzz does the same for random policies and "
+           "every write index x mode x writer kind (with and without WriteString, with a Flush method; the failing write accepting nothing or half "
+           "of its bytes; the error a private value, io.EOF or io.ErrUnexpectedEOF) and every byte offset as reader failure (five different errors); iofuzz does the same for random policies and "
            "documents and its faulty runs are trace-validated (werr/rerr). non-trivial = distinct (policy, document, environment)")
 
 
@@ -164,7 +168,8 @@ def c15_plan(ctx, tier):
     import os
     ctx.vh("cli", ["clicheck", "-repo", os.environ.get("VERIF_REPO", "/repo"), "-n", "40" if q else "600"], timeout=3000)
     return dict(rule=IO_RULE + "; clicheck builds cmd/sanitise_ugc and cmd/sanitise_html_email from /repo and compares stdout with the library "
-                "result of the harness' frozen copy of their documented policy", exhaustive=False, assumptions=ASSUME_COMMON)
+                "result of the harness' frozen copy of their documented policy (XSS vectors, generated documents, a >1 MiB document, and valid / near-miss "
+                "values for each of the tools' own attribute patterns)", exhaustive=False, assumptions=ASSUME_COMMON)
 
 
 def c16_plan(ctx, tier):
@@ -193,7 +198,9 @@ def c13_plan(ctx, tier):
                       "policy snapshot identical before and after, later calls unaffected; negative control: with a zero-value Policy{} "
                       "(precondition dropped) TLC finds the lazy-initialisation write; race-stress: the harness built with -race, 16 goroutines "
                       "x repeated random inputs per policy, ungated, all three string/bytes/reader entry points, every result compared with the "
-                      "sequential one (Go's map order varies between repetitions). non-trivial = distinct (policy, inputs) combinations"),
+                      "sequential one (Go's map order varies between repetitions); returned byte slices are held while other calls run, and a "
+                      "buffer returned by SanitizeReader (also on the error path) is written to by its caller and must not come back from the "
+                      "next call; every schedule is run through SanitizeReader and through SanitizeReaderToWriter with a destination that has no WriteString. non-trivial = distinct (policy, inputs) combinations"),
                 exhaustive=False,
                 assumptions=ASSUME_COMMON + ["data-race freedom itself is observed by the Go race detector on the ungated stress run (a race report makes the job fail as a violation); the specification supplies schedules, the read-only obligation and the determinism oracle"])
 
@@ -214,7 +221,9 @@ def c14_plan(ctx, tier):
                       "css.recursiveCheck with synthetic counting handlers (verdict and call count compared; abort budget 4*nf*n^2+16); "
                       "costcheck: for each of the ~210 default handlers every atom the handler accepts repeatedly x n in {8,16,24,...} "
                       "(+ rejected tail) through Policy.Sanitize with a budget on recursiveCheck invocations (2000+50n^3), and 12 "
-                      "growth generators (nesting, attribute lists, escapes, entities, ...) with doubling sizes and generous time limits; "
+                      "growth generators (nesting, attribute lists, escapes, entities, elements matched by two overlapping patterns, ...) with doubling sizes, "
+                      "each call under a watchdog on time and heap; every default handler on every 1-, 2- and selected 3-atom value (no panic); every URL "
+                      "of the catalogue in every URL position and every style value of the catalogue under a stall watchdog; 1.5 MiB single tokens; "
                       "panic-freedom: every call of the recorded byte-level sessions (soup, raw bytes, XSS vectors, AllowUnsafe allowed) "
                       "must return (a recovered panic is a violation) and is trace-validated. non-trivial = matrices needing > 1 handler call"),
                 exhaustive=False,
@@ -230,7 +239,9 @@ def c19_plan(ctx, tier):
                   consts={"MaxLen": 4 if q else 5, "Subst": 1 if q else 2}, timeout=3400)
     return dict(rule=("BM_Matchers.tla states the documented form of each of the eleven exported patterns as a recogniser over character "
                       "sequences; TLC generates every string up to MaxLen over the matcher's own characters plus the HTML-significant and control "
-                      "characters (exhaustive) and every single (thorough: double) character substitution of the documented examples, checks the "
+                      "characters (exhaustive), every string of length <= 2 and every single substitution of the examples over all printable ASCII plus "
+                      "control / non-ASCII stand-ins (wide), every prefix-of-a-keyword + suffix-of-a-keyword (splice), and every single (thorough: double) "
+                      "character substitution of the documented examples, checks the "
                       "documented forms are closed over their documented alphabets and free of hostile characters, and emits each string with the "
                       "documented verdict; the real regexp is asked for every string: accepted => documented form; documented example => "
                       "accepted. non-trivial = strings the real matcher accepts"),
@@ -249,7 +260,8 @@ def c18_plan(ctx, tier):
                       "</style>, at-rules) in 7 modes (separate token at every position, glued before/after, inserted at every cut, replacing "
                       "every character, comma- and slash-joined); the verdict comes from the structure of the value; every value is given to "
                       "css.GetDefaultHandler(prop) (as is and lower-cased), to the handler of an unknown property, and a sample end to end through "
-                      "Policy.Sanitize with AllowStyles(prop).Globally(). non-trivial = spliced values judged"),
+                      "Policy.Sanitize with AllowStyles(prop).Globally() and, per property, through the element and element-pattern scopes with the property named "
+                      "between two others in one AllowStyles call (judged by its own default handler; an unknown property by none). non-trivial = spliced values judged"),
                 exhaustive=True,
                 assumptions=["TLC is used as the bounded-exhaustive enumerator of structured values; css_vocabulary.json feeds generation only (atoms the handler no longer accepts are dropped and counted; exit 2 if most are)",
                              "hostile set = the constructs the property lists"])
